@@ -107,6 +107,7 @@ Ob0   == [nd    |-> Zero1,             \* destructor runs per object
           dcset |-> {},
           layout |-> 0, sig |-> <<>>, base |-> <<>>,   \* C09 (trace Monitor): per-call outcomes across heap layouts                \* sticky: objects whose destruction is the known finding D-C
           xblocks |-> 0,               \* library heap blocks that are neither an RcBox nor a link table
+          badrel |-> 0,                \* blocks released with a layout other than the one they were allocated with
           ntrace |-> 0, npop |-> 0, nvisit |-> 0, nalloc |-> 0, nmember |-> 0, nlinks |-> 0,
           empty0 |-> FALSE]            \* C14: table of the call's object was empty at entry
 Ctl0  == [stack |-> <<>>, mode |-> "run"]
@@ -1006,13 +1007,14 @@ C02 == ~led.stale =>
 
 C03 == "C03" \notin ob.flags
 
-C04 == Quiescent /\ ob.ub = {} =>
-       /\ ob.xblocks = 0
-       /\ \A o \in Made(led) :
-           (ob.nd[o] > 0 \/ led.gone[o]) /\ o \notin led.panicked =>
-              /\ ~heap.tbl[o]
-              /\ WeakHandles(o) = 0 => heap.mem[o] = "freed"
-              /\ WeakHandles(o) > 0 => heap.mem[o] = "alloc"
+C04 == /\ ob.badrel = 0      \* every block goes back with the layout it was allocated with
+       /\ (Quiescent /\ ob.ub = {}) =>
+            /\ ob.xblocks = 0
+            /\ \A o \in Made(led) :
+                (ob.nd[o] > 0 \/ led.gone[o]) /\ o \notin led.panicked =>
+                   /\ ~heap.tbl[o]
+                   /\ WeakHandles(o) = 0 => heap.mem[o] = "freed"
+                   /\ WeakHandles(o) > 0 => heap.mem[o] = "alloc"
 
 C05 == /\ "C05" \notin ob.flags
        /\ \A o \in Made(led) : WeakHandles(o) > 0 => heap.mem[o] = "alloc"
